@@ -37,7 +37,7 @@ def BOUND(tier):
 
 def RULE(tier):
     return ("real tcp Client/ClientTls <-> Server/ServerTls over FakeNet, buffer size 4 and 8096, %d tx/service scripts with payloads "
-            "of 0, 1, 3 and bs+1 bytes in both directions; every execution with <= %d non-default kernel answers (send accepts "
+            "of 0, 1, 3 and bs+1 bytes in both directions; every execution with <= %d non-default kernel answers (thorough tier: one less on TLS connections) (send accepts "
             "0/1/n-1 bytes, recv hands out 1 byte, connect EINPROGRESS, TLS want-read/want-write at handshake and - each of the two - at any send and any recv). "
             "Scripts also cover a reconnectable client whose server listens only later (socket re-opened with bytes waiting), either side half-closing its receive direction "
             "and transmitting on, and server-side connection timers that activity refreshes or not. The client uses application-supplied rx/tx buffers; wire logs are attached with (rxed, txed) rotating over (T,T), (F,T), (T,F). After "
@@ -216,7 +216,13 @@ def harness(job, ch):
                    sample=dict(tls=tls, bs=bs, script=SCRIPTS[si], kernel_calls=len(w.net.log), last_calls=[list(map(str, x)) for x in w.net.log[-6:]]))
 
 
-run_job, replay = standard(harness, BOUND)
+def job_bound(job, tier):
+    """thorough tier: 5 non-default kernel answers on plain connections, 4 on TLS ones (each TLS call has three more alternatives;
+    at 5 the TLS half alone ran for an hour)"""
+    return BOUND(tier) - (1 if tier != "quick" and job[1] else 0)
+
+
+run_job, replay = standard(harness, BOUND, job_bound=job_bound)
 
 
 def finish(total, tier):
